@@ -104,22 +104,30 @@ def _run(seg_ids, mode, hits):
 VFIELDS = ["name", "fa * k", "fb * k", "fa + fb", "seq[0] * 1000", "name * 2", "nope", "[fa, fb]"]
 
 
-def field_values(i1: int, i2: int, i3: int, nf: int) -> str:
+def field_values(i1: int, i2: int, i3: int, nf: int, mv: int = 0) -> str:
     """
     A collecting log tracepoint records one LOG watch result per field, and each resolves - in the snapshot's own table -
     to THAT field's value (type name and text), also when several fields evaluate to short-lived temporaries of the
     same size (floats, big ints, strings, lists), whose memory the interpreter reuses at once.
-    PRE: 0 <= i1 <= 7 and 0 <= i2 <= 7 and 0 <= i3 <= 7 and 2 <= nf <= 3
+    PRE: 0 <= i1 <= 7 and 0 <= i2 <= 7 and 0 <= i3 <= 7 and 2 <= nf <= 3 and 0 <= mv <= 3
+    PRE: mv == 0 or nf == 2
     POST: _ == ""
     """
     world.begin_path()
     from deep.api.tracepoint.trigger import build_trigger
-    i1, i2, i3, nf = [world.realize(x) for x in (i1, i2, i3, nf)]
+    i1, i2, i3, nf, mv = [world.realize(x) for x in (i1, i2, i3, nf, mv)]
     fields = [VFIELDS[i] for i in (i1, i2, i3)[:nf]]
     loc = {"name": "bob", "fa": 1.5, "fb": 2.25, "k": 3.0, "seq": [5, 6]}
     w = World()
     template = " ".join("{%s}" % f for f in fields)
-    w.install([build_trigger("tp1", "f.py", 7, {"fire_count": "1", "fire_period": "0", "log_msg": template}, ["k * k"], [])])
+    trig = build_trigger("tp1", "f.py", 7, {"fire_count": "1", "fire_period": "0", "log_msg": template}, ["k * k"], [])
+    # mv > 0: the tracepoint's variable budget (MAX_VARIABLES 0 / 3 / 6) runs out before / while the fields are reached: the
+    # MESSAGE is text and still complete; a field's watch then either resolves to its value or says that the limit was reached
+    tight = mv > 0
+    if tight:
+        for a in trig.actions:
+            a.config["MAX_VARIABLES"] = [None, 0, 3, 6][mv]
+    w.install([trig])
     w.event(FakeFrame("/app/f.py", "f", 7, loc), "line", None)
     world.reached()
     if len(w.push.snapshots) != 1:
@@ -136,6 +144,8 @@ def field_values(i1: int, i2: int, i3: int, nf: int) -> str:
             texts.append(str(e))
             continue
         texts.append(str(val))
+        if tight and x.result is None and x.error:
+            continue
         if x.result is None or x.result.vid not in s.var_lookup:
             return "C16:values:log-watch-without-a-variable"
         v = s.var_lookup[x.result.vid]
@@ -144,6 +154,8 @@ def field_values(i1: int, i2: int, i3: int, nf: int) -> str:
     if s.log_msg != "[deep] " + " ".join(texts):
         return "C16:values:message-text"
     ww = [x for x in s.watches if x.source == "WATCH"]
+    if tight and len(ww) == 1 and ww[0].result is None and ww[0].error:
+        return ""
     if len(ww) != 1 or ww[0].result is None or s.var_lookup[ww[0].result.vid].value != "9.0":
         return "C16:values:configured-watch-points-at-another-value"
     return ""
@@ -264,7 +276,7 @@ _Q3 = ["n == 3 and hits == 1 and s1 == %d and mode == %d and s3 in (1, 3, 4, 5, 
 _LE2 = ["n <= 2 and mode == %d and hits == %d and s1 == %d" % (m, h, a) for m in range(2) for h in (1, 3) for a in range(12)]
 CONDITIONS = [
     dict(fn="field_values", cubes=["nf == %d and i1 == %d" % (n, a) for n in (2, 3) for a in range(8)], twins=["reach", "mutant:no_keep_alive@nf == 2 and i1 == 1"],
-         bounds="templates of 2-3 fields over 8 expressions (a local, 5 producing temporaries: floats, big int, str, list; a failing one) on a collecting tracepoint that also has a configured watch"),
+         bounds="templates of 2-3 fields over 8 expressions (a local, 5 producing temporaries: floats, big int, str, list; a failing one) on a collecting tracepoint that also has a configured watch; the tracepoint's variable budget default / 0 / 3 / 6"),
     dict(fn="builtin_logger", cubes=["lit == %d and s1 %s" % (l, r) for l in range(4) for r in ("<= 5", ">= 6")], twins=["reach"],
          bounds="the real PythonPlugin.log_tracepoint (its logging call captured): 12x12 two-segment templates x 4 literal tails containing '%' forms; a field value containing '%s'"),
     dict(fn="render3", cubes={"quick": _LE2 + _Q3,
